@@ -160,7 +160,26 @@ UpdatePatch ==
                /\ Commit([k |-> "update", path |-> p, key |-> s[2], kc |-> kc, val |-> v, pv |-> ValOf(v), delkey |-> delkey],
                          SetAt(cur, p, WithItems(b, after)))
 
-Edit == done /\ nedits < MaxEdits /\ (UpdatePatch \/ SetHidden \/ SetHiddenKV \/ SetAttr \/ DelKey \/ AddChild \/ RemoveChild \/ ReorderChildren \/ ReadMissing)
+\* d = loads(dumps(d)): the printed text is read back and editing continues on the re-loaded dictionary.
+\* By C01 the only change is the letter case of bare enumerated words (the printer writes them in upper case).
+RECURSIVE Reloaded(_)
+RECURSIVE ReloadedVal(_, _, _)
+ReloadedVal(t, k, v) ==
+    IF v.py = "dict" THEN (IF v.type = "" \/ v.type \in KVTypes THEN v ELSE Reloaded(v))
+    ELSE IF v.py = "list" THEN [v EXCEPT !.elems = [i \in 1..Len(v.elems) |-> ReloadedVal(t, k, v.elems[i])]]
+    ELSE IF v.py = "str" /\ v.of.sh \in {"enum", "auto"} /\ Lex(t, k, v) = "B" THEN [v EXCEPT !.of.cs = "U"]
+    ELSE v
+\* values that are written as nothing (an empty list of objects / repeated keywords, an empty CONFIG) do not come back
+WritesNothing(v) == (v.py = "list" /\ Len(v.elems) = 0) \/ (v.py = "dict" /\ v.type = "" /\ Len(v.items) = 0)
+Reloaded(d) ==
+    LET kept == SelectSeq(d.items, LAMBDA kv : ~WritesNothing(kv[2]))
+    IN  [d EXCEPT !.items = [i \in 1..Len(kept) |-> <<kept[i][1], ReloadedVal(d.type, kept[i][1], kept[i][2])>>]]
+
+Reload ==
+    /\ ~Unprintable(cur)
+    /\ Commit([k |-> "reload"], Reloaded(cur))
+
+Edit == done /\ nedits < MaxEdits /\ (Reload \/ UpdatePatch \/ SetHidden \/ SetHiddenKV \/ SetAttr \/ DelKey \/ AddChild \/ RemoveChild \/ ReorderChildren \/ ReadMissing)
 
 EFinish ==
     /\ ~done
